@@ -100,9 +100,11 @@ func forceCloseRaceExperiment(d time.Duration) (int, int) {
 	return trials, hits
 }
 
-// closeDeadlockExperiment: Get holds Cache.mu.RLock for its whole duration; when its Promote evicts another
-// node, the lru handle's Release runs unRefExternal, which (count 0) takes Cache.mu.RLock AGAIN.  sync.RWMutex
-// forbids recursive read locking: if Close is waiting in Lock between the two, both block forever.
+// closeDeadlockExperiment: on the tree as found Get held Cache.mu.RLock for its whole duration; when its Promote
+// evicted another node, the lru handle's Release ran unRefExternal, which (count 0) took Cache.mu.RLock AGAIN.
+// sync.RWMutex forbids recursive read locking: with Close waiting in Lock between the two, both blocked forever
+// (Coq: C17_close_deadlock_as_found; 3 deadlocks in 46-131 trials).  Repaired by giving the operations a lock
+// of their own (Cache.opMu); Coq: C17_close_repaired_no_wait_cycle.
 // Returns (trials, deadlocks).  A deadlocked trial leaks its goroutines.
 func closeDeadlockExperiment(d time.Duration) (int, int) {
 	deadline := time.Now().Add(d)
